@@ -37,7 +37,7 @@ def as_uids(ss, sim, x):
 
 class IntvRecorder:
     def __init__(self, ss):
-        self.ss, self.saved, self.filters, self.steps, self.tx_calls = ss, [], [], [], []
+        self.ss, self.saved, self.filters, self.steps, self.tx_calls, self.dx_calls = ss, [], [], [], [], []
 
     def _patch(self, cls, name, make):
         orig = cls.__dict__[name]
@@ -142,6 +142,32 @@ class IntvRecorder:
                 return out
             return administer
         self._patch(ss.Tx, 'administer', mk_adm)
+
+        def mk_dx(orig):
+            def administer(self_, uids, *a, **kw):
+                sim = self_.sim
+                n = int(sim.people.uid.len_used)
+                states = []
+                for dn in self_.diseases:
+                    for st in self_.health_states:
+                        states.append((str(dn), str(st), np.asarray(getattr(sim.diseases[dn], st).raw[:n]).copy()))
+                draws = []
+                orig_rvs = self_.result_dist.rvs
+                def rvs(arg, *aa, **kk):
+                    out = orig_rvs(arg, *aa, **kk)
+                    draws.append((np.asarray(arg).copy(), np.asarray(out).copy()))
+                    return out
+                self_.result_dist.rvs = rvs
+                try:
+                    out = orig(self_, uids, *a, **kw)
+                finally:
+                    try: del self_.result_dist.rvs
+                    except Exception: self_.result_dist.rvs = orig_rvs
+                rec.dx_calls.append(dict(uids=np.asarray(uids).copy(), states=states, draws=draws, out=out, hierarchy=list(self_.hierarchy), default=int(self_.default_value),
+                                         auids=np.asarray(sim.people.auids).copy(), n=n, ti=int(sim.ti)))
+                return out
+            return administer
+        self._patch(ss.Dx, 'administer', mk_dx)
         return self
 
     def __exit__(self, *a):
